@@ -34,6 +34,10 @@ func NewBoardSummaryFromRaw(boardSummaryRaw *ptttype.BoardSummaryRaw) *BoardSumm
 	for idx, each := range boardSummaryRaw.BM {
 		bms[idx] = UUserID(types.CstrToString(each[:]))
 	}
+	title := boardSummaryRaw.Title
+	if title == nil { // a masked summary (board not visible to the caller) carries no title
+		title = &ptttype.BoardTitle_t{}
+	}
 	boardSummary := &BoardSummary{
 		Gid:          boardSummaryRaw.Gid,
 		Bid:          boardSummaryRaw.Bid,
@@ -41,9 +45,9 @@ func NewBoardSummaryFromRaw(boardSummaryRaw *ptttype.BoardSummaryRaw) *BoardSumm
 		BrdAttr:      boardSummaryRaw.BrdAttr,
 		StatAttr:     boardSummaryRaw.StatAttr,
 		Brdname:      types.CstrToString(boardSummaryRaw.Brdname[:]),
-		BoardClass:   types.CstrToBytes(boardSummaryRaw.Title[:4]),
-		BoardType:    types.CstrToBytes(boardSummaryRaw.Title[5:7]),
-		RealTitle:    types.CstrToBytes(boardSummaryRaw.Title[7:]),
+		BoardClass:   types.CstrToBytes(title[:4]),
+		BoardType:    types.CstrToBytes(title[5:7]),
+		RealTitle:    types.CstrToBytes(title[7:]),
 		BM:           bms,
 		Reason:       boardSummaryRaw.Reason,
 		LastPostTime: boardSummaryRaw.LastPostTime,
